@@ -1,11 +1,13 @@
 """C16 — log tracepoints: '[deep] ' + template with doubled braces preserved and every {expression} field replaced by
 the text of its value (or of its error); logger receives (msg, tracepoint id, context id); snapshot + log records the
 message and one LOG watch per field."""
+import itertools
 import logging
+import threading
 
 import core
 from props import _exprlib as X
-from rig import Rig, MockFrame, run_traced
+from rig import Rig, MockFrame, RecLogger, run_traced
 
 ID = 'C16'
 EXTRACT = ['limiter', 'expr']
@@ -20,7 +22,12 @@ RULE = ('templates built from segment lists: literal runs (ASCII, unicode incl. 
         '(character soup over braces, !, :, brackets, digits, plus hand-picked malformed ones: single braces, unclosed '
         'fields, bad conversions, numeric-only specs, numbering clashes); each through the log-only action '
         '(snapshot=no_collect + log_msg) or the snapshot+log action, on frame-like mocks or REAL frames (sys.settrace), '
-        'with a recording TracepointLogger or the default PythonPlugin logger, 1-3 hits with fire_count / fire_period. '
+        'with a recording TracepointLogger or the default PythonPlugin logger, 1-3 hits with fire_count / fire_period; '
+        'a limits stream: the snapshot+log action constructed directly with small MAX_VARIABLES / MAX_STRING_LENGTH / '
+        'MAX_COLLECTION_SIZE / MAX_VAR_DEPTH (budget spent by the frame before the template is processed) and extra '
+        'watches — the message must not depend on collection limits; a schedule stream: two threads with different '
+        'frames at one tracepoint, each parked inside a `gate()` field of the template, all 6 interleavings forced — '
+        'each message must be rendered from its own frame and each snapshot carry exactly its own LOG watches. '
         'Non-trivial: at least one field and one literal run, or a malformed template. Distinct = distinct canonical '
         'JSON of the case.')
 TRUSTED = ['Python str / repr / ascii / format on live values is the reference for a field\'s text',
@@ -102,10 +109,44 @@ def base_case(rng):
             'cfg': {'fire_count': rng.choice(COUNTS), 'fire_period': rng.choice(PERIODS)}, 'hits': hits}
 
 
+LIMITS = {'MAX_VARIABLES': [0, 1, 2, 3, 5, 10], 'MAX_STRING_LENGTH': [1, 4, 8], 'MAX_COLLECTION_SIZE': [0, 1, 2],
+          'MAX_VAR_DEPTH': [0, 1, 2]}
+SCHEDULES = sorted(set(itertools.permutations([0, 0, 1, 1])))
+
+
+def gen_limits(rng):
+    c = base_case(rng)
+    c.update(kind='tpl', mode='snap', logger='rec', segs=gen_segs(rng))
+    lim = {}
+    for k in rng.sample(sorted(LIMITS), rng.randint(1, 4)):
+        lim[k] = rng.choice(LIMITS[k])
+    if rng.random() < 0.7:
+        lim['MAX_VARIABLES'] = rng.choice(LIMITS['MAX_VARIABLES'][:5])
+    c['limits'] = lim
+    c['watches'] = [rng.choice(FIELDS_OK + FIELDS_FAIL[:5]) for _ in range(rng.choice([0, 0, 1, 2, 3]))]
+    return c
+
+
+def gen_conc(rng, k):
+    segs = [s for s in gen_segs(rng) if s[0] != 'field' or s[1] != 'gate()']
+    if not [s for s in segs if s[0] == 'field']:
+        segs.append(['field', rng.choice(['n', 's', 'lst[0]', "d['k']", 'n + 1', 'o.name']), None, ''])
+    segs.insert(rng.randint(0, len(segs)), ['field', 'gate()', None, ''])
+    return {'kind': 'conc', 'mode': rng.choice(['log', 'snap']), 'via': 'mock', 'logger': 'rec',
+            'cfg': {'fire_count': '-1', 'fire_period': '0'}, 'hits': [100], 'segs': segs,
+            'sched': list(SCHEDULES[k % len(SCHEDULES)])}
+
+
 def gen(rng, tier):
     k = 0
     while True:
         k += 1
+        if k % 7 == 0:
+            yield gen_limits(rng)
+            continue
+        if k % 11 == 0:
+            yield gen_conc(rng, k // 11)
+            continue
         c = base_case(rng)
         if k % 5 == 0:
             c['kind'] = 'raw'
@@ -134,12 +175,179 @@ def corpus():
         dict(b, kind='tpl', cfg={'fire_count': '2', 'fire_period': '0'}, hits=[5, 6, 7], segs=[['lit', 'x'], ['field', 's', None, '']]),
         dict(b, kind='raw', tpl='{n'), dict(b, kind='raw', tpl='}'), dict(b, kind='raw', tpl='{n:d}'),
         dict(b, kind='raw', mode='log', tpl='{}{0}'), dict(b, kind='tpl', segs=[]),
+        # budget spent by the frame: fields with fresh values still render their values
+        dict(b, kind='tpl', limits={'MAX_VARIABLES': 3}, watches=['n + 1'],
+             segs=[['lit', 'order '], ['field', 'n', None, ''], ['lit', ' for '], ['field', "d['k']", None, ''],
+                   ['lit', ' total='], ['field', 'n * 3', None, ''], ['lit', ' items='], ['field', 'len(lst)', None, ''],
+                   ['lit', ' {raw} '], ['field', 'missing.x', None, ''], ['lit', ' end']]),
+        dict(b, kind='tpl', via='real', limits={'MAX_VARIABLES': 1, 'MAX_STRING_LENGTH': 1, 'MAX_COLLECTION_SIZE': 0,
+                                                'MAX_VAR_DEPTH': 0}, watches=[],
+             segs=[['field', 'twice(s)', None, ''], ['lit', '|'], ['field', 'o.name', 'r', '>8'], ['field', 'lst', None, '']]),
+        # two threads inside process_log at once
+        {'kind': 'conc', 'mode': 'snap', 'via': 'mock', 'logger': 'rec', 'cfg': {'fire_count': '-1', 'fire_period': '0'},
+         'hits': [100], 'sched': [0, 1, 1, 0],
+         'segs': [['lit', 'a='], ['field', 'gate()', None, ''], ['lit', ' n='], ['field', 'n', None, ''], ['lit', ' s='],
+                  ['field', 's', None, '']]},
+        {'kind': 'conc', 'mode': 'log', 'via': 'mock', 'logger': 'rec', 'cfg': {'fire_count': '-1', 'fire_period': '0'},
+         'hits': [100], 'sched': [0, 1, 0, 1],
+         'segs': [['field', 'n + 1', None, ''], ['field', 'gate()', None, ''], ['field', "d['k']", None, '']]},
     ]
 
 
 # --------------------------------------------------------------------------------------- implementation
 def template_of(case):
     return case['tpl'] if case['kind'] == 'raw' else write_template(case['segs'])
+
+
+def build_log_trigger(case, path, line):
+    """the tracepoint of a case; with `limits` / `watches` the snapshot action is constructed directly (collection
+    limits are only settable that way)"""
+    from deep.api.tracepoint.trigger import build_trigger, LocationAction, Trigger, LineLocation, Location
+    args = {'log_msg': template_of(case), 'fire_count': case['cfg']['fire_count'],
+            'fire_period': case['cfg']['fire_period']}
+    if case['mode'] == 'log':
+        args['snapshot'] = 'no_collect'
+    trig = build_trigger('tp1', path, line, args, list(case.get('watches') or []), [])
+    if case.get('limits'):
+        acts = []
+        for a in trig.actions:
+            cfg = dict(a.config)
+            cfg.update(case['limits'])
+            acts.append(LocationAction(a.id, a.condition, cfg, a.action_type))
+        trig = Trigger(LineLocation(path, line, Location.Position.START), acts)
+    return trig
+
+
+def variant(v):
+    """the second thread's value of a local: same shape, different content"""
+    if isinstance(v, bool) or v is None:
+        return v
+    if isinstance(v, int):
+        return v + 100
+    if isinstance(v, float):
+        return v + 0.25
+    if isinstance(v, str):
+        return v + '#2'
+    if isinstance(v, list):
+        return [variant(x) for x in reversed(v)]
+    if isinstance(v, dict):
+        if set(v) in ({'obj'}, {'tuple'}):
+            k = next(iter(v))
+            return {k: variant(v[k])}
+        return {k: variant(x) for k, x in v.items()}
+    return v
+
+
+def thread_locals(i):
+    return [[k, v if i == 0 else variant(v)] for k, v in LOCALS]
+
+
+class ThreadLogger(RecLogger):
+    def __init__(self):
+        super().__init__()
+        self.idents = []
+
+    def log_tracepoint(self, log_msg, tp_id, ctx_id):
+        self.idents.append(threading.current_thread())
+        super().log_tracepoint(log_msg, tp_id, ctx_id)
+
+
+class Parked:
+    """one hit on its own thread; the `gate()` field of the template parks it until the driver releases it"""
+
+    def __init__(self, rig, idx, frame_of):
+        self.rig, self.idx, self.frame_of = rig, idx, frame_of
+        self.arrived = threading.Semaphore(0)
+        self.release = threading.Event()
+        self.parked = False
+        self.finished = False
+        self.error = None
+        self.thread = None
+        self.ident = None
+
+    def gate(self):
+        self.parked = True
+        self.arrived.release()
+        if not self.release.wait(30):
+            raise TimeoutError('gate not released')
+        self.parked = False
+        return 'g%d' % self.idx
+
+    def body(self):
+        self.ident = threading.get_ident()
+        try:
+            self.rig.handler.trace_call(self.frame_of(self), 'line', None)
+        except BaseException as e:  # noqa: B902
+            self.error = f'{type(e).__name__}: {e}'
+        finally:
+            self.finished = True
+            self.arrived.release()
+
+    def advance(self):
+        if self.finished:
+            return
+        if self.thread is None:
+            self.thread = threading.Thread(target=self.body, daemon=True)
+            self.thread.start()
+        elif self.parked:
+            self.release.set()
+        else:
+            return
+        if not self.arrived.acquire(timeout=30):
+            raise core.Infra('schedule driver: thread did not reach its gate / finish in 30 s')
+
+
+def run_conc(case):
+    logger = ThreadLogger()
+    rig = Rig(logger=False, plugins=[logger])
+    try:
+        name = X.unique('verif_host_c16')
+        mod = X.make_module(name, GLOBALS)
+        rig.install([build_log_trigger(case, name + '.py', 7)])
+        rig.clock = case['hits'][0]
+        owners, orig_push = [], rig.push.push_snapshot
+
+        def push(snap):
+            owners.append(threading.current_thread())     # (thread idents are reused; Thread objects are not)
+            orig_push(snap)
+        rig.push.push_snapshot = push
+
+        def frame_of(t):
+            loc = {k: X.build_value(v) for k, v in thread_locals(t.idx)}
+            loc['gate'] = t.gate
+            return MockFrame('/app/%s.py' % name, 'host', 7, loc, f_globals=mod.__dict__)
+        thrs = [Parked(rig, i, frame_of) for i in range(2)]
+        for i in case['sched']:
+            thrs[i].advance()
+        for t in thrs:
+            while t.thread is not None and not t.finished:
+                t.advance()
+            if t.thread is None:
+                t.advance()
+                while not t.finished:
+                    t.advance()
+        for t in thrs:
+            t.thread.join(30)
+        out = []
+        for t in thrs:
+            ent = {}
+            if t.error:
+                ent['raised'] = t.error
+            calls = [c for c, who in zip(logger.logged, logger.idents) if who is t.thread]
+            snaps = [s for s, who in zip(rig.push.pushed, owners) if who is t.thread]
+            ent['logger'] = [[c[0], canon_id(c[1]), canon_id(c[2])] for c in calls]
+            ent['lines'] = []
+            ent['snapshots'] = len(snaps)
+            if snaps:
+                sn = snaps[0]
+                ent['snap_log'] = sn.log_msg
+                ent['snap_watches'] = X.watch_dump(sn)
+                ctx = sn.attributes.get('context') if hasattr(sn.attributes, 'get') else None
+                ent['snap_ctx_is_logger_ctx'] = bool(calls) and calls[0][2] == ctx
+            out.append(ent)
+        return {'hits': out}
+    finally:
+        rig.close()
 
 
 class _Capture(logging.Handler):
@@ -165,7 +373,8 @@ def canon_id(s):
 
 
 def run_impl(case):
-    from deep.api.tracepoint.trigger import build_trigger
+    if case['kind'] == 'conc':
+        return run_conc(case)
     default = case['logger'] == 'default'
     plugins = []
     cap = None
@@ -182,11 +391,7 @@ def run_impl(case):
         name = X.unique('verif_host_c16')
         mod = X.make_module(name, GLOBALS)
         fn, line = X.host_function(mod, 'host', [], LOCALS, '/app/%s.py' % name)
-        args = {'log_msg': template_of(case), 'fire_count': case['cfg']['fire_count'],
-                'fire_period': case['cfg']['fire_period']}
-        if case['mode'] == 'log':
-            args['snapshot'] = 'no_collect'
-        rig.install([build_trigger('tp1', name + '.py', line, args, [], [])])
+        rig.install([build_log_trigger(case, name + '.py', line)])
         hits = []
         for ts in case['hits']:
             rig.clock = ts
@@ -297,15 +502,19 @@ def ref_parse(t):
     return segs
 
 
-def ref_env():
+def ref_env(thread=None):
     mod = X.make_module('verif_ref_c16', GLOBALS)
-    return mod.__dict__, {k: X.build_value(v) for k, v in LOCALS}
+    if thread is None:
+        return mod.__dict__, {k: X.build_value(v) for k, v in LOCALS}
+    loc = {k: X.build_value(v) for k, v in thread_locals(thread)}
+    loc['gate'] = lambda: 'g%d' % thread
+    return mod.__dict__, loc
 
 
-def ref_render(segs):
+def ref_render(segs, thread=None):
     """expected message and field outcomes for a segment list, or None when Python's own conversion / formatting
     of the field text refuses (then no message can be expected)."""
-    g, loc = ref_env()
+    g, loc = ref_env(thread)
     out, fields = ['[deep] '], []
     for s in segs:
         if s[0] == 'lit':
@@ -351,13 +560,19 @@ def oracle(case, obs):
     for h in obs['hits']:
         if 'raised' in h:
             return ['the agent disturbed the host: ' + h['raised']]
-    segs = case['segs'] if case['kind'] == 'tpl' else ref_parse(case['tpl'])
+    segs = case['segs'] if case['kind'] in ('tpl', 'conc') else ref_parse(case['tpl'])
     if segs is not None and outside_statement(segs):
         return []
-    exp = ref_render(segs) if segs is not None else None
-    perm = permitted(case)
-    used = 0     # a malformed template still uses budget in the code; the statement says nothing: only judge messages
+    if case['kind'] == 'conc':
+        # two threads, each at the tracepoint with its own frame: `hit i` below is thread i
+        exps = [ref_render(segs, thread=i) for i in range(len(obs['hits']))]
+        perm = [True] * len(obs['hits'])
+    else:
+        exps = [ref_render(segs) if segs is not None else None] * len(obs['hits'])
+        perm = permitted(case)
+    relaxed = bool(case.get('limits'))     # under small collection limits a value may be cut / not recorded
     for i, (h, ok) in enumerate(zip(obs['hits'], perm)):
+        exp = exps[i]
         msgs = [c[0] for c in h['logger']] + h['lines']
         if exp is None:
             if msgs:
@@ -398,12 +613,14 @@ def oracle(case, obs):
                 continue
             if h['snap_log'] != msg:
                 v.append(f'hit {i}: snapshot.log_msg {h["snap_log"]!r}, expected {msg!r}')
+            want = [(e, 'WATCH') for e in (case.get('watches') or [])] + [(f[0], 'LOG') for f in fields]
             ws = h['snap_watches']
-            if [w['expr'] for w in ws] != [f[0] for f in fields] or any(w['source'] != 'LOG' for w in ws):
+            if [(w['expr'], w['source']) for w in ws] != want:
                 v.append(f'hit {i}: snapshot watches {[(w["expr"], w["source"]) for w in ws]!r}, expected one LOG watch '
-                         f'per field {[f[0] for f in fields]!r}')
-            else:
-                for w, (e, o) in zip(ws, fields):
+                         f'per field {[f[0] for f in fields]!r}' + (f' after the watches {case["watches"]!r}'
+                                                                    if case.get('watches') else ''))
+            elif not relaxed:
+                for w, (e, o) in zip(ws[len(ws) - len(fields):], fields):
                     if w['error'] is not None or w['type'] != o['ty'] or \
                             ((o['failed'] or o['ty'] in X.SIMPLE_TYPES) and w['value'] != o['text']):
                         v.append(f'hit {i}: field {e!r} recorded as {w["type"]} {w["value"]!r} error={w["error"]!r}; '
@@ -415,9 +632,9 @@ def oracle(case, obs):
     return v
 
 
-def oracle_table(case):
-    g, loc = ref_env()
-    segs = case['segs'] if case['kind'] == 'tpl' else (ref_parse(case['tpl']) or [])
+def oracle_table(case, thread=None):
+    g, loc = ref_env(thread)
+    segs = case['segs'] if case['kind'] in ('tpl', 'conc') else (ref_parse(case['tpl']) or [])
     names = {s[1] for s in segs if s[0] == 'field'} | {str(d) for d in range(10)}
     if case['kind'] == 'raw':
         # a template the reference calls malformed may still evaluate some fields before failing: offer every
@@ -433,20 +650,33 @@ def oracle_table(case):
 def model_request(case, obs):
     if any('raised' in h for h in obs['hits']):
         return None
+    if case['kind'] == 'conc':
+        return {'op': 'renderN', 'tpl': template_of(case), 'collect': case['mode'] == 'snap',
+                'threads': [{'oracle': oracle_table(case, i)} for i in range(len(obs['hits']))]}
     return {'op': 'render', 'tpl': template_of(case), 'collect': case['mode'] == 'snap', 'oracle': oracle_table(case)}
 
 
 def compare(case, obs, resp):
     if 'error' in resp:
         return ['model error: ' + resp['error']]
-    r = resp['rendered']
-    if r.get('err') == 'unsupported':
-        return []
-    d = []
+    if case['kind'] == 'conc':
+        # the model has no shared state between hits: each thread's hit is its own rendering
+        d = []
+        for i, (h, r) in enumerate(zip(obs['hits'], resp['threads'])):
+            d += ['thread %d: %s' % (i, x) for x in compare_one(case, h, r)]
+        return d
     perm = permitted(case)
     first = next((h for h, ok in zip(obs['hits'], perm) if ok), None)
     if first is None:
         return []
+    return compare_one(case, first, resp)
+
+
+def compare_one(case, first, resp):
+    r = resp['rendered']
+    if r.get('err') == 'unsupported':
+        return []
+    d = []
     if case['logger'] == 'rec':
         exp_calls = [[v for _, v in call] for call in resp['logger']]
         names = [[k for k, _ in call] for call in resp['logger']]
@@ -477,6 +707,8 @@ def compare(case, obs, resp):
 
 
 def label(case, obs):
+    if case['kind'] == 'conc':
+        return 'conc/%s/%s' % (case['mode'], ''.join(map(str, case['sched'])))
     segs = case['segs'] if case['kind'] == 'tpl' else ref_parse(case['tpl'])
     if segs is None:
         shape = 'malformed'
@@ -487,10 +719,13 @@ def label(case, obs):
     else:
         nf = len([s for s in segs if s[0] == 'field'])
         shape = 'fields%d' % min(nf, 3)
-    return f"{case['kind']}/{case['mode']}/{case['via']}/{case['logger']}/{shape}"
+    kind = 'limits' if case.get('limits') else case['kind']
+    return f"{kind}/{case['mode']}/{case['via']}/{case['logger']}/{shape}"
 
 
 def nontrivial(case, obs):
+    if case['kind'] == 'conc':
+        return case['sched'] not in ([0, 0, 1, 1], [1, 1, 0, 0])      # the two hits overlap
     segs = case['segs'] if case['kind'] == 'tpl' else ref_parse(case['tpl'])
     if segs is None:
         return True
@@ -502,17 +737,27 @@ def shrink(case):
         c = dict(case)
         c['hits'] = case['hits'][:1]
         yield c
-    if case['kind'] == 'tpl':
+    if case['kind'] in ('tpl', 'conc'):
         for i in range(len(case['segs'])):
+            if case['kind'] == 'conc' and case['segs'][i][:2] == ['field', 'gate()']:
+                continue
             c = dict(case)
             c['segs'] = case['segs'][:i] + case['segs'][i + 1:]
             yield c
+        for key in ('limits', 'watches'):
+            for k in list(case.get(key) or []):
+                c = dict(case)
+                c[key] = ({a: b for a, b in case[key].items() if a != k} if key == 'limits'
+                          else [w for w in case[key] if w is not k])
+                if key == 'limits' and not c[key]:
+                    continue
+                yield c
         for i, s in enumerate(case['segs']):
             if s[0] == 'field' and (s[2] or s[3]):
                 c = dict(case)
                 c['segs'] = case['segs'][:i] + [['field', s[1], None, '']] + case['segs'][i + 1:]
                 yield c
-    else:
+    elif case['kind'] == 'raw':
         t = case['tpl']
         for i in range(len(t)):
             c = dict(case)
